@@ -85,6 +85,9 @@ func (d *ddbV2) project(item map[string]types.AttributeValue, proj *string, name
 
 func (d *ddbV2) GetItem(_ context.Context, in *dynamodb.GetItemInput, _ ...func(*dynamodb.Options)) (*dynamodb.GetItemOutput, error) {
 	d.calls++
+	if vx.Fault("read", "ddb.call") {
+		return nil, errors.New("operation error DynamoDB: request send failed")
+	}
 	if in.TableName == nil || *in.TableName != d.table {
 		return nil, &types.ResourceNotFoundException{Message: aws.String("Requested resource not found")}
 	}
@@ -106,6 +109,9 @@ func (d *ddbV2) GetItem(_ context.Context, in *dynamodb.GetItemInput, _ ...func(
 
 func (d *ddbV2) Query(_ context.Context, in *dynamodb.QueryInput, _ ...func(*dynamodb.Options)) (*dynamodb.QueryOutput, error) {
 	d.calls++
+	if vx.Fault("read", "ddb.call") {
+		return nil, errors.New("operation error DynamoDB: request send failed")
+	}
 	if in.TableName == nil || *in.TableName != d.table {
 		return nil, &types.ResourceNotFoundException{Message: aws.String("Requested resource not found")}
 	}
